@@ -62,6 +62,7 @@ type Monitors struct {
 	activeSet   bool
 	switchRaw   string
 	maintRaw    string
+	recoverySince map[string]time.Duration // when the present mark of a host appeared
 	recovery    map[string]bool
 	sessInc     map[int64]string
 	sessAlive   map[int64]bool
@@ -273,6 +274,12 @@ func (m *Monitors) onZKEvent(e *ZKEvent) {
 		case strings.HasPrefix(rel, "recovery/"):
 			h := strings.TrimPrefix(rel, "recovery/")
 			if e.Op == "create" || e.Op == "set" {
+				if !m.recovery[h] {
+					if m.recoverySince == nil {
+						m.recoverySince = map[string]time.Duration{}
+					}
+					m.recoverySince[h] = e.T
+				}
 				m.recovery[h] = true
 			} else if e.Op == "delete" {
 				delete(m.recovery, h)
